@@ -1,7 +1,6 @@
 package props
 
 import (
-	"fmt"
 	"time"
 
 	"github.com/corazawaf/coraza/v3/verifharness/eng"
@@ -9,23 +8,6 @@ import (
 )
 
 func init() { Registry["C08"] = C08 }
-
-func flowCfg(n, maxChain int, phases, engines string) string {
-	return fmt.Sprintf(`SPECIFICATION Spec
-CONSTANTS
-  Family = "flow"
-  N = %d
-  MaxChain = %d
-  Phases = %s
-  Engines = %s
-  Slice = %%SLICE%%
-  Slices = %%SLICES%%
-INVARIANTS Emit NoLeakAcrossPhases DetectionOnlySilent FiredInOrder FiredHaveData LoggingReached
-PROPERTIES InterruptFinal NothingAfterInterrupt
-CHECK_DEADLOCK FALSE
-VIEW View
-`, n, maxChain, phases, engines)
-}
 
 // C08: skip / skipAfter / allow / chain steer evaluation exactly as documented.
 func C08(run *vf.Run) {
@@ -37,7 +19,7 @@ func C08(run *vf.Run) {
 	phases := vf.Pick(run, "{1, 2, 5}", "{1, 2, 5}")
 	eng.ReplayFamily(run, eng.FamilyOpts{
 		Name:    "flow",
-		CfgText: flowCfg(n, 1, phases, `{"On", "DetectionOnly"}`),
+		CfgText: engineCfg("flow", n, 1, phases, `{"On", "DetectionOnly"}`),
 		Proj:    eng.ProjOpts{},
 		Timeout: vf.Pick(run, 10*time.Minute, 60*time.Minute),
 		Workers: 3,
